@@ -344,6 +344,6 @@ def _time_probes(fnode, module_tree=None):
         if isinstance(n, ast.Try):
             for st in n.body:
                 for x in ast.walk(st):
-                    if isinstance(x, ast.Attribute) and x.attr == "time" and isinstance(x.value, ast.Name) and x.value.id == "self":
-                        out.add(n.lineno)
+                    if isinstance(x, ast.Attribute) and x.attr == "time" and isinstance(x.value, ast.Name) and isinstance(x.ctx, ast.Load):
+                        out.add(n.lineno)  # self.time, or <parameter>.time in a helper the reservoir is handed to
     return out
